@@ -21,7 +21,7 @@ EXHAUSTIVE_SUBDOMAINS = ["atmos on the 10 m altitude grid over [-500, 20000] m"]
 ASSUMPTIONS = ["'tabulated ISA' = analytic hydrostatic ISA with g0, R, lapse rate -6.5 K/km, isothermal above 11 km",
                "round-trip tolerance 1e-8 relative (double precision through two pow() calls)"]
 REQUIRED = ["atmos_grid", "tropopause", "roundtrip", "monotone", "sea_level", "ordering", "distance_uniform",
-            "distance_antipodal", "distance_identical", "bearing", "array_equals_scalar"]
+            "distance_antipodal", "distance_identical", "bearing", "array_equals_scalar", "types"]
 
 
 def rel(a, b):
@@ -200,7 +200,55 @@ def m_geo(ctx, case):
         ctx.sample({"pair": P[0], "distance_m": float(aero.distance(*P[0])), "haversine_m": isa.haversine(*P[0])})
 
 
-MONITORS = {"atmos": m_atmos, "tropopause": m_tropopause, "speed": m_speed, "geo": m_geo}
+def m_types(ctx, case):
+    """argument type / shape independence: arrays of mixed altitudes, integer arguments, caller's arrays left untouched"""
+    import numpy as np
+    from pyModeS.extra import aero
+    H = case["H"]
+    V = case["v"]
+    Ha = np.array(H, dtype=float)
+    Va = np.array(V, dtype=float)
+    fns = ["tas2cas", "cas2tas", "tas2eas", "eas2tas", "tas2mach", "mach2tas", "mach2cas", "cas2mach"]
+    for f in fns:
+        F = getattr(aero, f)
+        x = Va if "mach2" not in f else Va / 400.0
+        xs = [float(t) for t in x]
+        Hc, xc = Ha.copy(), x.copy()
+        ra = call(F, x, Ha)
+        ctx.ev()
+        if not (np.array_equal(Ha, Hc) and np.array_equal(x, xc)):
+            ctx.violation("caller-array-modified", fn=f)
+        if ra[0] != "ok" or np.shape(ra[1]) != np.shape(x):
+            ctx.violation("array-call-fails-or-wrong-shape", fn=f, observed=repr(ra[1:])[:120])
+            continue
+        for k in range(len(H)):
+            rs = call(F, xs[k], H[k])
+            ctx.ev()
+            if rs[0] != "ok" or not rel(float(ra[1][k]), float(rs[1])) <= 1e-8:
+                ctx.violation("array-differs-from-scalar", fn=f, v=xs[k], H=H[k], array=float(ra[1][k]), scalar=repr(rs[1:])[:60])
+            # integer arguments must give the value of the equal float arguments
+            if float(xs[k]).is_integer() and float(H[k]).is_integer():
+                ri = call(F, int(xs[k]), int(H[k]))
+                ctx.ev()
+                if ri[0] != "ok" or not rel(float(ri[1]), float(rs[1])) <= 1e-8:
+                    ctx.violation("integer-arguments-differ-from-float", fn=f, v=xs[k], H=H[k], int_result=repr(ri[1:])[:60], float_result=float(rs[1]))
+    # atmosphere with mixed-altitude and integer arrays
+    for arr in (Ha, np.array([int(h) for h in H])):
+        r = call(aero.atmos, arr)
+        ctx.ev()
+        if r[0] != "ok":
+            ctx.violation("array-call-fails-or-wrong-shape", fn="atmos", observed=repr(r[1:])[:120])
+            continue
+        for k in range(len(H)):
+            e = isa.atmos(float(arr[k]))
+            got = [float(r[1][j][k]) for j in range(3)]
+            if max(rel(g, x_) for g, x_ in zip(got, e)) > 1e-3:
+                ctx.violation("isa-off-by-more-than-0.1-percent", H=float(arr[k]), observed=got, expected=list(e), via="array/int argument")
+    ctx.hit("types")
+    ctx.nontrivial(("types", tuple(H), tuple(V)))
+
+
+MONITORS = {"atmos": m_atmos, "tropopause": m_tropopause, "speed": m_speed, "geo": m_geo, "types": m_types}
 
 
 def cases(ctx):
@@ -236,6 +284,11 @@ def cases(ctx):
         ms = sorted(rng.uniform(1e-3, 1.3) for _ in range(30))
         ms = [v for j, v in enumerate(ms) if j == 0 or v - ms[j - 1] > 1e-8]
         yield "speed", {"H": H, "v": vs, "m": ms}
+    for k in range(ctx.share(64 if quick else 2000)):
+        n = rng.randint(4, 12)
+        H = [rng.choice((-500.0, -100.0, 0.0, 10999.0, 11000.0, 11001.0, 20000.0, float(rng.randint(-500, 20000)), rng.uniform(-500, 20000))) for _ in range(n)]
+        V = [rng.choice((float(rng.randint(1, 450)), rng.uniform(0.5, 450), 1.0, 450.0)) for _ in range(n)]
+        yield "types", {"H": H, "v": V}
     # geo
     def rp():
         return [math.degrees(math.asin(rng.uniform(-1, 1))), rng.uniform(-180, 180)]
